@@ -38,10 +38,19 @@ WHERES = {
 FIELDS = {
     "f": ("SUM(w) AS f", "w"),
     "g": ("SUM(x) AS g", "x"),
-    "h": ("SUM(w) AS h", "w"),
-    "i": ("SUM(x) AS i", "x"),
+    # (two fields of one table never share an expression: a query field is fed
+    # by every table field with the same expression text, see DESIGN.md)
+    "h": ("SUM(y) AS h", "y"),
+    "i": ("SUM(z) AS i", "z"),
+}
+# non-decodable fields (reported as plain values, no cells in the specification)
+RAWDEFS = {
+    "pc": "PERCENTILE(v, 90, 0, 100, 1)",     # wide accumulator: shifts byte layouts
+    "mxv": "MAX(v)",
+    "avv": "AVG(v)",
 }
 SRC = dict({"p": "_point"}, **{k: v[1] for k, v in FIELDS.items()})
+SRC.update({k: "none" for k in RAWDEFS})
 
 
 def plain(v):
@@ -89,7 +98,8 @@ class Table:
         if self.view_of:
             sel = ", ".join(self.fields)
         else:
-            sel = ", ".join([FIELDS[f][0] for f in self.fields] + ["%s AS %s" % (e, n) for n, e in self.raw.items()])
+            sel = ", ".join([FIELDS[f][0] if f in FIELDS else "%s AS %s" % (RAWDEFS[f], f) for f in self.fields]
+                            + ["%s AS %s" % (e, n) for n, e in self.raw.items()])
         frm = self.view_of or STREAM
         w = WHERES[self.view_where if self.view_of else self.where][0]
         s = "SELECT %s FROM %s" % (sel, frm)
@@ -97,6 +107,13 @@ class Table:
             s += " WHERE " + w
         s += " GROUP BY " + ", ".join(self.group + ["period(%ds)" % self.res])
         return s
+
+    def altered(self, fields=None, where=None):
+        """A copy of this table with another field list and/or WHERE."""
+        t = Table(self.name, fields=self.fields if fields is None else fields,
+                  where=self.where if where is None else where, group=self.group, res=self.res, ret=self.ret,
+                  view_of=self.view_of, max_flush_ms=self.max_flush_ms, raw=self.raw, view_where=self.view_where)
+        return t
 
     def proj(self, k):
         d = plain_dims(KEYS[k])
@@ -111,7 +128,7 @@ class Table:
                 # flush duration clamped to [min, max]; keep timer flushes out of
                 # gated runs
                 "minFlushMs": 0 if self.max_flush_ms else 86400000,
-                "raw": sorted(self.raw),
+                "raw": sorted(list(self.raw) + [f for f in self.fields if f in RAWDEFS]),
                 "abs": {"w": self.where, "fs": self.flds()}}
 
 
